@@ -191,6 +191,12 @@ def concat(frames):
 
 # ------------------------------------------------------------------ expression builder (pandas AND streamz)
 
+# element-wise functions for Series.map / DataFrame.map that do NOT propagate NaN by themselves (so na_action matters)
+MAPFNS = {"nanflag": lambda v: 1.0 if v != v else 0.0,
+          "bucket": lambda v: 7.0 if v != v else v * 2.0,
+          "clip": lambda v: min(v, 2.0) if v == v else -3.0}
+
+
 def build_c(f, e):
     t = e[0]
     if t == "col":
@@ -203,6 +209,14 @@ def build_c(f, e):
         return BIN_ALL[e[1]](e[2], build_c(f, e[3]))
     if t == "neg":
         return -build_c(f, e[1])
+    if t == "map":
+        # ["map", fn, E, na_action, form]: Series.map with every spelling of its na_action option (same call on both sides)
+        s_, fn = build_c(f, e[2]), MAPFNS[e[1]]
+        if e[4] == "kw":
+            return s_.map(fn, na_action=e[3])
+        if e[4] == "pos":
+            return s_.map(fn, e[3])
+        return s_.map(fn)
     raise ValueError(e)
 
 
@@ -232,6 +246,10 @@ def build_pipe(f, pipe, setitem=False, attr=False):
                 f = f.assign(**{L(st[1]): build_c(f, st[2])})    # (string labels only: generators see to it)
         elif st[0] == "select":
             f = f[[L(c) for c in st[1]]]
+        elif st[0] == "mapframe":
+            # ["mapframe", fn, na_action, form]: DataFrame.map
+            fn = MAPFNS[st[1]]
+            f = f.map(fn, na_action=st[2]) if st[3] == "kw" else (f.map(fn, st[2]) if st[3] == "pos" else f.map(fn))
         else:
             raise ValueError(st)
     return f
@@ -1184,7 +1202,7 @@ def gen_nonfinite_case(rng):
                      "g": rng.choice(KEYS)})
         if rng.random() < 0.1:
             rows[-1]["y"] = None
-    source = rng.choice(["data", "division", "division"])
+    source = rng.choice(["data", "division", "division", "map"])
     placement = rng.choice(["first-batch", "later-batch", "after-empty-first-batch"])
     k = rng.randint(1, min(3, n))                      # how many special rows
     if placement == "later-batch" and n >= 2:
@@ -1196,6 +1214,8 @@ def gen_nonfinite_case(rng):
     for i in idx:
         if source == "data":
             rows[i]["x"] = rng.choice(["inf", "inf", "-inf"])
+        elif source == "map":
+            rows[i]["x"] = None                         # NaN met by an element-wise map (na_action decides)
         else:
             rows[i]["x"] = 0                            # y / 0 -> +-inf, 0 / 0 -> NaN
     # consecutive batches
@@ -1213,8 +1233,15 @@ def gen_nonfinite_case(rng):
             out.append([])
     batches = [{c: [r[c] for r in p] for c in cols} for p in out]
     X, Y = ["col", "x"], ["col", "y"]
+    mapframe = None
     if source == "data":
         expr = rng.choice([X, ["bin", "add", X, Y], ["binr", "mul", X, 2], ["neg", X], ["bin", "sub", Y, X]])
+    elif source == "map":
+        na = rng.choice(["ignore", "ignore", None])
+        form = rng.choice(["kw", "pos"]) if na else rng.choice(["kw", "pos", "default"])
+        expr = ["map", rng.choice(sorted(MAPFNS)), rng.choice([X, ["bin", "add", X, Y], ["neg", X]]), na, form]
+        if rng.random() < 0.3:
+            mapframe, expr = ["mapframe", expr[1], na, form], X
     else:
         expr = rng.choice([["bin", "div", Y, X], ["binl", "div", 1, X], ["binl", "div", -1, X],
                            ["bin", "add", ["bin", "div", Y, X], Y]])
@@ -1230,6 +1257,8 @@ def gen_nonfinite_case(rng):
             t["route"] = "expanding"
     else:
         pipe = [["assign", "r", expr]]
+        if mapframe:
+            pipe.insert(0, mapframe)
         if rng.random() < 0.3:
             pipe.append(["filter", ["cmpr", rng.choice(["gt", "ne", "le"]), Y, rng.choice([-1, 0, 1])]])
         if r < 0.75:
@@ -1266,6 +1295,17 @@ def nonfinite_corpus():
         cs.append({"kind": "nonfinite", "source": "division", "placement": name, "cols": COLS, "batches": batches,
                    "pipe": [["assign", "r", ratio]],
                    "target": {"kind": "group", "agg": "sum", "val": "r", "by": "name", "key": ["col", "g"], "approx": True}})
+    # element-wise map with na_action over NaN (Series.map and DataFrame.map, keyword and positional)
+    nanny = [B([1, None, 2], y=[1, 2, None], g=[0, 1, 0]), B([None], y=[3], g=[1]), B([3, 1], y=[None, 1], g=[0, 1])]
+    for form in ("kw", "pos"):
+        for fn in sorted(MAPFNS):
+            cs.append({"kind": "nonfinite", "source": "map", "placement": "first-batch", "cols": COLS, "batches": nanny, "pipe": [],
+                       "target": {"kind": "col", "agg": "sum" if fn != "nanflag" else "count", "expr": ["map", fn, X, "ignore", form], "ddof": 1, "approx": True}})
+        cs.append({"kind": "nonfinite", "source": "map", "placement": "first-batch", "cols": COLS, "batches": nanny,
+                   "pipe": [["mapframe", "bucket", "ignore", form]], "target": {"kind": "frame", "agg": "sum", "approx": True}})
+        cs.append({"kind": "nonfinite", "source": "map", "placement": "first-batch", "cols": COLS, "batches": nanny,
+                   "pipe": [["assign", "r", ["map", "clip", Y, "ignore", form]]],
+                   "target": {"kind": "group", "agg": "count", "val": "r", "by": "name", "key": ["col", "g"], "approx": True}})
     for agg in NF_AGGS:
         cs.append({"kind": "nonfinite", "source": "data", "placement": "first-batch", "cols": COLS, "batches": direct,
                    "pipe": [], "target": {"kind": "col", "agg": agg, "expr": X, "ddof": 1, "approx": True}})
